@@ -69,6 +69,12 @@ PRIMES = [7, 104729, 2 ** 61 - 1, 2 ** 63 - 25, 2 ** 63 - 1, 2 ** 64 - 59,
           2 ** 127 - 1, 2 ** 128 - 159]
 
 
+FULL_RANGE = {'block_cipher_mode': 18, 'padding_method': 10,
+              'hashing_algorithm': 17, 'key_role_type': 24,
+              'digital_signature_algorithm': 19,
+              'cryptographic_algorithm': 56}
+
+
 def gen_masks(r):
     x = r.random()
     if x < 0.12:
@@ -91,6 +97,9 @@ def gen_value(r, kind='key', ln=None):
 
 def gen_wrapping(r):
     w = {'wrapping_method': r.choice([1, 2, 3])}
+    full = r.random() < 0.35     # whole enumerations instead of a few members
+    if full:
+        w['wrapping_method'] = r.randrange(1, 6)
     if r.random() < 0.8:
         eki = {'unique_identifier': str(r.randrange(1, 50))}
         if r.random() < 0.7:
@@ -110,6 +119,8 @@ def gen_wrapping(r):
                             ('initial_counter_value', [0, 1])):
                 if r.random() < 0.4:
                     cp[k] = r.choice(vals)
+                    if full and k in FULL_RANGE:
+                        cp[k] = r.randrange(1, FULL_RANGE[k] + 1)
             eki['cryptographic_parameters'] = cp
         w['encryption_key_information'] = eki
     if r.random() < 0.3:
@@ -143,6 +154,8 @@ def gen_spec(r, otype):
                     for _ in range(r.choice([1, 2]))]
     if otype in ('SymmetricKey', 'SplitKey'):
         alg = r.choice([3, 2, 0x10, 0x11, 1, 0x19, 0x2D])
+        if r.random() < 0.35:
+            alg = r.randrange(1, 57)      # every member of the enumeration
         ln = r.choice([128, 192, 256, 64, 8, 4096])
         s.update({'alg': alg, 'len': ln, 'value': gen_value(
             r, ln=r.choice([ln // 8, ln // 8, 1, 33]))})
